@@ -29,6 +29,12 @@ DET = {
  'C13_b': ('C13', 'quick', "c13.foo.*", 'caught (5 violations)'),
  'C14_a': ('C14', 'quick', None, 'caught (1 violation)'),
  'C15_a': ('C15', 'quick', "c15.*plans_payload*", 'caught (plan_exec)'),
+ 'C02_c': ('C12', 'quick', "c12.fnu*", 'missed by the quick tier at first (caught by thorough); the nested utilitarian fixture was moved into the quick tier: caught'),
+ 'C04_c': ('C04', 'quick', "c04.f5.*", 'caught (8 violations: round bound)'),
+ 'C06_c': ('C15', 'quick', "c15.*plans_payload*", 'caught by C15 (payload vs void configuration differ); C06 fixtures have no payload'),
+ 'C08_c': ('C08', 'quick', "c08.fo3c*", 'caught by C17 (ACTIVE_BITS) at once; by C08 after the buffer-size clause and the three-composite orthogonal root were added'),
+ 'C09_c': ('C09', 'quick', "c09.*replay_enter*", 'missed at first (no replayEnter case existed), caught by the case added for it'),
+ 'C16_c': ('C16', 'quick', "c16.*report*", 'caught (1 violation: saturating counter)'),
  'C16_a': ('C16', 'quick', None, 'caught (orthogonal-root case)'),
  'C17_a': ('C17', 'quick', None, 'caught twice (compile rejection + table comparison)'),
  'C18_a': ('C18', 'quick', None, 'caught (4 violations)'),
